@@ -97,7 +97,7 @@ def run(ck):
     ck.coverage["trusted_base"] = ["Coq 8.16.1 kernel + vm_compute", "tools/translate_front.py",
                                    "tools/front_gen.py printer + ply tokenizer/LALR driver (text <-> tree)",
                                    "tools/run_front.py + CPython 3.12", "no axioms (Print Assumptions: closed)"]
-    ck.try_prove("C11.v", model_vo=("theories/Front.vo",))
+    ck.try_prove("C11.v", model_vo=("theories/Front.vo", "theories/Spec.vo"))
 
     specs = []
     for j in fs.load_corpus("C11"):
